@@ -23,6 +23,7 @@ import (
 	"sort"
 	"strings"
 	"sync"
+	"sync/atomic"
 	"testing"
 	"time"
 
@@ -447,7 +448,7 @@ var _ dnsserver.ResponseWriter = (*recRW)(nil)
 
 type stepSpec struct {
 	Op    string   `json:"op"`             // "query", "refresh", "init" (health check inside NewHandler)
-	Wait  bool     `json:"wait,omitempty"` // sleep clearly beyond the back-off period first
+	Wait  string   `json:"wait,omitempty"` // before the call: "beyond" = sleep until every failed probe is clearly older than the back-off, "part" = until about half of it
 	Modes []string `json:"modes"`          // mode of every stub during the step: mains, then fallbacks
 	Name  string   `json:"name,omitempty"`
 	Qtype uint16   `json:"qtype,omitempty"`
@@ -515,8 +516,11 @@ func genCase(r *vkit.Run, stream string, idx, nSteps int) caseSpec {
 		}
 	}
 	qn := 0
-	add := func(op string, wait bool) {
-		st := stepSpec{Op: op, Wait: wait && canWait}
+	add := func(op string, wait string) {
+		st := stepSpec{Op: op}
+		if canWait {
+			st.Wait = wait
+		}
 		for _, m := range cur {
 			st.Modes = append(st.Modes, m.String())
 		}
@@ -536,7 +540,7 @@ func genCase(r *vkit.Run, stream string, idx, nSteps int) caseSpec {
 		}
 	}
 	if cs.F > 0 && rng.IntN(4) == 0 {
-		add("init", false)
+		add("init", "")
 	}
 	if idx%2 == 1 {
 		// template: fail -> detect -> (recover) -> refresh inside back-off ->
@@ -544,7 +548,7 @@ func genCase(r *vkit.Run, stream string, idx, nSteps int) caseSpec {
 		for i := 0; i < cs.M; i++ {
 			cur[i] = []mode{mUp, mUp, mUpCase, mTrunc}[rng.IntN(4)]
 		}
-		add("query", false)
+		add("query", "")
 		var S []int
 		for i := 0; i < cs.M; i++ {
 			if rng.IntN(2) == 0 {
@@ -561,12 +565,12 @@ func genCase(r *vkit.Run, stream string, idx, nSteps int) caseSpec {
 			cur[i] = failingModes[rng.IntN(len(failingModes))]
 		}
 		perturbFbs(25)
-		add("query", false)
-		add("query", false)
-		add("refresh", false)
+		add("query", "")
+		add("query", "")
+		add("refresh", "")
 		perturbFbs(25)
-		add("query", false)
-		add("query", false)
+		add("query", "")
+		add("query", "")
 		if cs.F == 0 {
 			// without fallbacks: the mains that were down come back, the
 			// others go away; the former must still be in rotation.
@@ -581,29 +585,33 @@ func genCase(r *vkit.Run, stream string, idx, nSteps int) caseSpec {
 				}
 			}
 			for k := 0; k < 4; k++ {
-				add("query", false)
+				add("query", "")
 			}
-			add("refresh", false)
-			add("query", false)
+			add("refresh", "")
+			add("query", "")
 		} else {
 			for _, i := range S {
 				if rng.IntN(4) != 0 {
 					cur[i] = []mode{mUp, mUpCase, mTrunc}[rng.IntN(3)]
 				}
 			}
-			add("refresh", false) // inside the back-off period
+			if rng.IntN(2) == 0 {
+				add("refresh", "") // inside the back-off period
+			} else {
+				add("refresh", "part") // still inside, but later
+			}
 			perturbFbs(25)
-			add("query", false)
-			add("query", false)
+			add("query", "")
+			add("query", "")
 			for _, i := range S {
 				if rng.IntN(5) != 0 {
 					cur[i] = mUp
 				}
 			}
-			add("refresh", true) // clearly beyond
-			add("query", false)
-			add("query", false)
-			add("query", false)
+			add("refresh", "beyond")
+			add("query", "")
+			add("query", "")
+			add("query", "")
 		}
 	}
 	for len(cs.Steps) < nSteps {
@@ -618,11 +626,13 @@ func genCase(r *vkit.Run, stream string, idx, nSteps int) caseSpec {
 		}
 		switch x := rng.IntN(100); {
 		case x < 56:
-			add("query", false)
-		case x < 84:
-			add("refresh", false)
+			add("query", "")
+		case x < 80:
+			add("refresh", "")
+		case x < 88:
+			add("refresh", "part")
 		default:
-			add("refresh", true)
+			add("refresh", "beyond")
 		}
 	}
 	return cs
@@ -1122,7 +1132,6 @@ func runCase(r *vkit.Run, cs caseSpec) {
 	everFailed := make([]bool, cs.M)
 	downAtRefresh := make([]bool, cs.M) // F == 0: main was failing during some Refresh
 	tags := map[string]bool{}
-	var lastRefreshEnd time.Time
 	logPos := make([]int, cs.M+cs.F)
 	tag := fmt.Sprintf("%s%d", cs.Stream, cs.Idx)
 	completed := 0
@@ -1139,7 +1148,7 @@ func runCase(r *vkit.Run, cs caseSpec) {
 		nontrivial := false
 		for k := range tags {
 			ks = append(ks, k)
-			if !strings.HasPrefix(k, "main-answer") && k != "refresh-all-ok" && k != "refresh-noop" {
+			if !strings.HasPrefix(k, "main-answer") && k != "refresh-all-ok" && k != "refresh-noop" && k != "ambiguous" {
 				nontrivial = true
 			}
 		}
@@ -1169,9 +1178,22 @@ func runCase(r *vkit.Run, cs caseSpec) {
 		if fx.h == nil && st.Op != "init" {
 			fx.newHandler(tag, backoff, 0)
 		}
-		if st.Wait && !lastRefreshEnd.IsZero() {
-			if d := backoff*3/2 + 30*time.Millisecond - time.Since(lastRefreshEnd); d > 0 {
-				time.Sleep(d)
+		if st.Wait != "" {
+			// measured from the latest possible instant of the youngest failed probe
+			var ref time.Time
+			for i := range state {
+				if state[i].Failed && state[i].U.After(ref) {
+					ref = state[i].U
+				}
+			}
+			target := backoff*3/2 + 30*time.Millisecond
+			if st.Wait == "part" {
+				target = backoff * 55 / 100
+			}
+			if !ref.IsZero() {
+				if d := target - time.Since(ref); d > 0 {
+					time.Sleep(d)
+				}
 			}
 		}
 		var c0, c1 time.Time
@@ -1399,7 +1421,6 @@ func runCase(r *vkit.Run, cs caseSpec) {
 				r.Bucket("refreshes_leaving_no_active_main", 1)
 			}
 			r.Bucket("refreshes", 1)
-			lastRefreshEnd = c1
 			tr.Active = append([]bool(nil), active...)
 			trace = append(trace, tr)
 		}
@@ -1448,7 +1469,7 @@ func countQuery(r *vkit.Run, tg string) {
 }
 
 func sequential(r *vkit.Run, only int) {
-	n := r.N(144, 1500)
+	n := r.N(288, 4000)
 	nSteps := r.N(14, 18)
 	workers := 12
 	ch := make(chan int)
@@ -1463,7 +1484,10 @@ func sequential(r *vkit.Run, only int) {
 		}()
 	}
 	if only >= 0 {
-		ch <- only
+		// replay: the handler picks upstreams at random, so repeat the schedule
+		for k := 0; k < 25; k++ {
+			ch <- only
+		}
 	} else {
 		for idx := 0; idx < n; idx++ {
 			ch <- idx
@@ -1479,7 +1503,7 @@ func sequential(r *vkit.Run, only int) {
 // queries concurrent with Refresh (race detector on)
 
 func concurrent(r *vkit.Run, only int) {
-	n := r.N(6, 40)
+	n := r.N(8, 60)
 	for idx := 0; idx < n; idx++ {
 		if only >= 0 && idx != only {
 			continue
@@ -1498,6 +1522,7 @@ func runConcurrent(r *vkit.Run, idx int) {
 		Modes []string `json:"modes"`
 	}
 	var spec []roundSpec
+	var panicked atomic.Bool
 	defer func() {
 		if p := recover(); p != nil {
 			r.Violation("panic:forward-handler", fmt.Sprintf("panic in the concurrent phase: %v", p), map[string]any{"instance": idx, "rounds": spec})
@@ -1557,6 +1582,13 @@ func runConcurrent(r *vkit.Run, idx int) {
 			seed := rng.Uint64()
 			go func(g int) {
 				defer wg.Done()
+				defer func() {
+					if p := recover(); p != nil {
+						r.Violation("panic:forward-handler", fmt.Sprintf("panic in ServeDNS concurrent with Refresh: %v", p),
+							map[string]any{"instance": idx, "rounds": spec})
+						panicked.Store(true)
+					}
+				}()
 				x := seed
 				for k := 0; k < perG; k++ {
 					x = x*6364136223846793005 + 1442695040888963407
@@ -1572,6 +1604,13 @@ func runConcurrent(r *vkit.Run, idx int) {
 		wg.Add(1)
 		go func() {
 			defer wg.Done()
+			defer func() {
+				if p := recover(); p != nil {
+					r.Violation("panic:forward-handler", fmt.Sprintf("panic in Refresh concurrent with queries: %v", p),
+						map[string]any{"instance": idx, "rounds": spec})
+					panicked.Store(true)
+				}
+			}()
 			for k := 0; k < 3; k++ {
 				ctx, cancel := context.WithTimeout(context.Background(), 10*time.Second)
 				c0 := time.Now()
@@ -1584,6 +1623,9 @@ func runConcurrent(r *vkit.Run, idx int) {
 			refreshEnd = time.Now()
 		}()
 		wg.Wait()
+		if panicked.Load() {
+			return
+		}
 		// sequential tail: strictly the new active set
 		var tail []qr
 		for k := 0; k < 3; k++ {
@@ -1665,7 +1707,7 @@ func runConcurrent(r *vkit.Run, idx int) {
 func TestCheck(t *testing.T) {
 	r := vkit.Start(t, "C17", "fault_enumeration")
 	defer r.Finish()
-	r.Rule("sequential: seeded schedules of queries / Refresh rounds / waits beyond the back-off against the real forward.Handler with M in {1,2,3} mains and " +
+	r.Rule("sequential: seeded schedules of queries / Refresh rounds (immediately, after about half the back-off, or clearly beyond it) against the real forward.Handler with M in {1,2,3} mains and " +
 		"F in {0,1,2} fallbacks (all nine combinations), back-off in {0, 450ms, 750ms, 1h}; every stub has a scripted behaviour per step out of " +
 		"up, upcase (valid reply, question re-cased), trunc (TC over UDP, answer over TCP), servfail, wrongid, wrongname, wrongtype, noquestion, short (<17 bytes), " +
 		"silent (timeout), closed (port closed). Odd cases start with a fail/detect/recover-inside-backoff/recover-beyond-backoff template, the rest is a random walk. " +
@@ -1690,7 +1732,9 @@ func TestCheck(t *testing.T) {
 			if doc.Witness.Case != nil {
 				only = doc.Witness.Case.Idx
 				r.Extra("replay_case", only)
+				r.Sample(map[string]any{"replayed_case": genCase(r, "s", only, r.N(14, 18))})
 			} else if doc.Witness.Instance != nil {
+				r.Sample(map[string]any{"replayed_concurrent_instance": *doc.Witness.Instance})
 				onlyCC = *doc.Witness.Instance
 				r.Extra("replay_instance", onlyCC)
 			}
@@ -1706,20 +1750,31 @@ func TestCheck(t *testing.T) {
 		return
 	}
 
-	r.Require("cases_completed", 60)
-	r.Require("queries_main_answer", 100)
-	r.Require("queries_main_answer_case_insensitive", 5)
-	r.Require("queries_main_answer_tcp_after_truncation", 5)
-	r.Require("queries_main_garbage_rejected", 20)
-	r.Require("queries_failover_after_network_error", 20)
-	r.Require("queries_fallback_no_active_main", 20)
-	r.Require("fallback_also_failed_error", 5)
-	r.Require("queries_main_neterr_no_fallbacks", 5)
-	r.Require("probe_failures", 40)
-	r.Require("backoff_skips_confirmed", 15)
-	r.Require("reprobes_after_backoff_elapsed", 15)
-	r.Require("recoveries", 15)
-	r.Require("queries_answered_by_recovered_main", 10)
-	r.Require("nofallback_main_used_after_failing_during_refresh", 5)
-	r.Require("concurrent_phase_queries", 100)
+	// coverage gates: about a fifth of what the unchanged tree yields in the quick tier
+	for b, min := range map[string]int64{
+		"cases_completed":                                   150,
+		"queries_main_answer":                               300,
+		"queries_main_answer_case_insensitive":              60,
+		"queries_main_answer_tcp_after_truncation":          50,
+		"queries_main_servfail_relayed":                     30,
+		"queries_main_garbage_rejected":                     80,
+		"garbage_rejected:wrongid":                          15,
+		"garbage_rejected:wrongname":                        15,
+		"garbage_rejected:wrongtype":                        15,
+		"garbage_rejected:noquestion":                       10,
+		"garbage_rejected:short":                            10,
+		"queries_failover_after_network_error":              70,
+		"queries_fallback_no_active_main":                   120,
+		"fallback_also_failed_error":                        40,
+		"queries_main_neterr_no_fallbacks":                  25,
+		"probe_failures":                                    100,
+		"backoff_skips_confirmed":                           100,
+		"reprobes_after_backoff_elapsed":                    60,
+		"recoveries":                                        30,
+		"queries_answered_by_recovered_main":                50,
+		"nofallback_main_used_after_failing_during_refresh": 100,
+		"concurrent_phase_queries":                          300,
+	} {
+		r.Require(b, min)
+	}
 }
